@@ -37,6 +37,7 @@ var intrinsicNotes = map[string]string{
 	"netip":              "native: net/netip.ParseAddr and Addr methods run natively on concrete hosts",
 	"publicsuffix":       "native: golang.org/x/net/publicsuffix.PublicSuffix runs natively on concrete hosts",
 	"stub-idna":          "stub: idna.Profile.ToASCII on a symbolic host is a nondeterministic (mode 1) or always-succeeding (mode 2) stub: IDNA label semantics are outside the symbolic claim",
+	"stub-psl":           "stub: publicsuffix.PublicSuffix on a symbolic host answers nondeterministically",
 	"stub-netip":         "stub: netip.ParseAddr and the Addr predicates on a symbolic host are nondeterministic (mode 1) or canonical/unzoned/unmapped (mode 2) stubs: IP-literal syntax is outside the symbolic claim",
 }
 
@@ -599,6 +600,14 @@ func iIdnaToASCII(w *W, fn *ssa.Function, args []Value, pos token.Pos) Value {
 
 func iPublicSuffix(w *W, fn *ssa.Function, args []Value, pos token.Pos) Value {
 	w.use("publicsuffix")
+	if _, conc := w.conc(args[0].(Str)); !conc && w.stubMode != 0 {
+		// nondeterministic: the host is, or is not, its own public suffix
+		w.use("stub-psl")
+		if w.fork(make([]*Term, 2), false, "stub publicsuffix.PublicSuffix") == 0 {
+			return Tuple{args[0], w.ts.tt}
+		}
+		return Tuple{w.strConst("<another suffix>"), w.ts.ff}
+	}
 	s := w.cstr(args[0], "publicsuffix.PublicSuffix")
 	r, icann := publicsuffix.PublicSuffix(s)
 	return Tuple{w.strConst(r), w.ts.Bool(icann)}
@@ -764,6 +773,9 @@ func (w *W) prim(fn *ssa.Function, args []Value, pos token.Pos) Value {
 	case "zzAllocStop":
 		w.countAllocs = false
 		w.e.recordAllocClass(string(w.corsBranch), w.allocs, w.allocLog, w)
+		if lim := args[0].(*Term); lim.IsConst() && int64(w.allocs) > lim.Int() {
+			w.violation("alloc", fmt.Sprintf("%d allocation-site events in one request (limit %d): %v", w.allocs, lim.Int(), w.allocLog), nil)
+		}
 		return ts.Int64(int64(w.allocs))
 	case "zzSameBacking":
 		a, b := args[0].(Slice), args[1].(Slice)
@@ -929,7 +941,7 @@ func (w *W) freezeReachable(v Value, seen map[any]bool) {
 }
 
 func (w *W) allocEvent(what string) {
-	if !w.countAllocs {
+	if !w.countAllocs || w.allocMute > 0 || w.inInit > 0 {
 		return
 	}
 	if w.guard != nil {
